@@ -659,6 +659,11 @@ class Folder:
         if isinstance(st, ast.Raise):
             raise FoldRaise(self.expr(st.exc, env, m) if st.exc is not None else None)
         if isinstance(st, (ast.Pass, ast.Import, ast.ImportFrom, ast.Global, ast.Nonlocal)):
+            if isinstance(st, ast.Import):
+                for a in st.names:
+                    nm = a.asname or a.name.split(".")[0]
+                    target = a.name if a.asname else a.name.split(".")[0]
+                    env[nm] = self.prog.modules.get(target) or ExtVal(target)
             if isinstance(st, ast.ImportFrom):
                 fn = env.get("__fn__")
                 if fn is not None:
@@ -668,6 +673,8 @@ class Folder:
                             env[a.asname or a.name] = ClassVal(r)
                         elif isinstance(r, FunctionInfo):
                             env[a.asname or a.name] = FuncVal(r)
+                        elif isinstance(r, Ext):
+                            env[a.asname or a.name] = ExtVal(r.name)
             return
         if isinstance(st, (ast.FunctionDef, ast.AsyncFunctionDef)):
             fn = env.get("__fn__")
